@@ -715,7 +715,7 @@ impl Scenario for ListenerNewScenario {
     }
     fn prelude(&self) -> Vec<Action> {
         // c0: two listeners, c1: one listener, c2: producer, c3: second producer
-        vec![
+        let mut v = vec![
             connect(20),
             connect(14),
             connect(20),
@@ -723,7 +723,17 @@ impl Scenario for ListenerNewScenario {
             send(0, create_bus_listener(1)),
             send(0, create_bus_listener(2)),
             send(1, create_bus_listener(3)),
-        ]
+        ];
+        if self.listener_crash {
+            // one started listener with the first filter on each listener connection, so that a
+            // crash in the middle of a fan-out is two steps away and not six
+            let f = &all_filters()[self.filters[0]];
+            v.push(send(0, add_filter(sym::cid(IdKind::Lis, 0), f)));
+            v.push(send(0, start_listener(4, sym::cid(IdKind::Lis, 0), 1)));
+            v.push(send(1, add_filter(sym::cid(IdKind::Lis, 2), f)));
+            v.push(send(1, start_listener(4, sym::cid(IdKind::Lis, 2), 2)));
+        }
+        v
     }
     fn max_depth(&self) -> usize {
         self.depth
